@@ -7,10 +7,17 @@
     epoch (`start < -seconds_east`, `start < seconds_east`, `t < 4 * 60 * 60`) or against TIME_MIN
     -> `cfg.epochIn`, `cfg.epochOut`, `cfg.epochWin`
 
+  * errno: the values of VBI_ERR_NO_TIME / VBI_ERR_INVALID_PIL (enum in pdc.c), EOVERFLOW / ENOMEM of this
+    platform, VBI_VERSION_MINOR (src/version.h; must be 2: the 0.2 API resets errno in the public
+    functions, the errno model of Pdc/Errno.lean is written for that shape), and the sequence of
+    `errno = ...` statements of valid_pil_lto_to_time, localtime_tz, change_tz, restore_tz and
+    pty_utc_validity_window, which must be the sequence the model was written against
+    -> `Generated.errNoTime`, `errInvalidPil`, `eOverflow`, `eNoMem`, `versionMinor`
+
 Any other shape of those statements makes the translator fail (the check then reports the property
 as no longer shown).  Output is written only when it changed.
 """
-import os, re, sys
+import errno as _errno, os, re, sys
 
 REPO = os.environ.get("ZVBI_REPO", "/repo")
 HERE = os.path.dirname(os.path.abspath(__file__))
@@ -61,6 +68,32 @@ def main():
                        (r"t > TIME_MAX - 28 \* 60 \* 60", b2)):
         if not re.search(r"if \(unlikely \(" + pat + r"\)\)", where):
             raise SystemExit("gen_pdc: upper guard '%s' not found" % pat)
+    # ---- errno ----
+    m = re.search(r"VBI_ERR_NO_TIME\s*=\s*(0x[0-9A-Fa-f]+|\d+)\s*,\s*VBI_ERR_INVALID_PIL\s*,", src)
+    if not m:
+        raise SystemExit("gen_pdc: enum VBI_ERR_NO_TIME = <n>, VBI_ERR_INVALID_PIL not found")
+    no_time = int(m.group(1), 0)
+    ver = strip_comments(open(os.path.join(REPO, "src", "version.h")).read())
+    m = re.search(r"#\s*define\s+VBI_VERSION_MINOR\s+(\d+)", ver)
+    if not m or int(m.group(1)) != 2:
+        raise SystemExit("gen_pdc: VBI_VERSION_MINOR is not 2 - the errno model (Pdc/Errno.lean) follows the 0.2 API shape")
+    expect = {
+        "valid_pil_lto_to_time": ["0", "VBI_ERR_NO_TIME", "EOVERFLOW", "EOVERFLOW", "EOVERFLOW", "VBI_ERR_INVALID_PIL", "EOVERFLOW", "EOVERFLOW"],
+        "localtime_tz": ["0", "VBI_ERR_NO_TIME", "saved_errno", "saved_errno"],
+        "change_tz": ["ENOMEM", "saved_errno"],
+        "restore_tz": ["saved_errno"],
+        "pty_utc_validity_window": ["0", "EOVERFLOW"],
+        "valid_pil_lto_validity_window": ["EOVERFLOW", "EOVERFLOW"],
+    }
+    for fn, want in expect.items():
+        got = re.findall(r"\berrno = ([^;]+);", body_of(src, fn))
+        if got != want:
+            raise SystemExit("gen_pdc: errno assignments of %s are %s, the model follows %s" % (fn, got, want))
+    for fn, pat in (("valid_pil_lto_to_time", r"if \(0 == errno\) errno = VBI_ERR_NO_TIME;"),
+                    ("localtime_tz", r"if \(0 == saved_errno\) errno = VBI_ERR_NO_TIME; else errno = saved_errno;"),
+                    ("valid_pil_lto_validity_window", r"if \(VBI_ERR_INVALID_PIL == errno\)")):
+        if not re.search(pat, body_of(src, fn)):
+            raise SystemExit("gen_pdc: %s: statement '%s' not found" % (fn, pat))
     t = lambda x: "true" if x else "false"
     text = """-- generated by translate/gen_pdc.py from src/pdc.c and config.h - do not edit
 namespace Zvbi.Pdc
@@ -81,9 +114,16 @@ namespace Generated
 /-- `month_days[12]` of src/pdc.c -/
 def monthDays : List Nat := %s
 def cfg : Cfg := { haveTimegm := %s, epochIn := %s, epochOut := %s, epochWin := %s }
+/-- VBI_ERR_NO_TIME, VBI_ERR_INVALID_PIL (enum in src/pdc.c), EOVERFLOW, ENOMEM (this platform), VBI_VERSION_MINOR -/
+def errNoTime : Int := %d
+def errInvalidPil : Int := %d
+def eOverflow : Int := %d
+def eNoMem : Int := %d
+def versionMinor : Nat := 2
 end Generated
 end Zvbi.Pdc
-""" % ("[" + ", ".join(str(x) for x in md) + "]", t(have_timegm), t(ein), t(eout), t(ewin))
+""" % ("[" + ", ".join(str(x) for x in md) + "]", t(have_timegm), t(ein), t(eout), t(ewin),
+       no_time, no_time + 1, _errno.EOVERFLOW, _errno.ENOMEM)
     if not os.path.exists(OUT) or open(OUT).read() != text:
         open(OUT, "w").write(text)
         print("gen_pdc: wrote", OUT)
